@@ -41,7 +41,7 @@ ANCHORS = ["txtorcon.torcontrolprotocol:parse_keywords", "txtorcon.torcontrolpro
            "txtorcon.torcontrolprotocol:TorControlProtocol.get_conf",
            "txtorcon.torcontrolprotocol:TorControlProtocol.get_conf_single",
            "txtorcon.torcontrolprotocol:TorControlProtocol._accumulate_multi_response"]
-FLOORS = {"quick": {"evaluations": 3000, "results_compared": 3000, "earlier_calls_on_same_connection": 800, "results_of_calls_outstanding_together": 1000, "earlier_call_cancelled_while_in_flight": 80, "replies_with_several_keys_and_data_blocks": 150, "reach:txtorcon.torcontrolprotocol:parse_keywords": 3000},
+FLOORS = {"quick": {"evaluations": 3000, "results_compared": 3000, "earlier_calls_on_same_connection": 800, "results_of_calls_outstanding_together": 1000, "earlier_call_cancelled_while_in_flight": 80, "replies_with_several_keys_and_data_blocks": 150, "long_value_cases": 12, "reach:txtorcon.torcontrolprotocol:parse_keywords": 3000},
           "thorough": {"evaluations": 40000, "results_compared": 40000}}
 
 ALPHA = ["a", "=", " ", '"', "'", "2", "5", "0", ".", "O", "K"]
@@ -471,6 +471,17 @@ def run_shard(spec, rec):
             if i < 3:
                 rec.sample(case)
         rec.enumerated("all values of length <=%d over {a,=,SP,\",',2,5,0,.,O,K}" % spec["maxlen"])
+    elif mode == "long":
+        # values far longer than LineReceiver's default 16 KiB line limit (descriptors, ns/all on one line)
+        for n in spec["sizes"]:
+            big = "".join("abcdefghij"[i % 10] for i in range(n))
+            for case in ({"api": "get_info_single", "keys": ["config-text"], "values": [big]},
+                         {"api": "get_info", "keys": ["version", "ns/all"], "values": ["0.4.8.12", big]},
+                         {"api": "get_info", "keys": ["ns/all"], "multiline": True, "values": [["r x", big, "s Fast"]]},
+                         {"api": "get_conf", "keys": ["ContactInfo"], "values": [big]}):
+                case["chunking"] = [1 << 30] if n % 2 else [4096]
+                run_case(case, rec, ctx)
+                rec.count("long_value_cases")
     elif mode == "pipelined":
         for i in range(spec["n"]):
             rnd = gen.rnd_for(spec["seed"], "C13p", spec["shard"], i)
@@ -509,8 +520,10 @@ def plan(tier, seed):
         sp = [{"mode": "exhaustive", "maxlen": 3, "part": i, "of": 5} for i in range(5)]
         sp += [{"mode": "random", "n": 700, "edge": i == 0} for i in range(9)]
         sp += [{"mode": "pipelined", "n": 300} for _ in range(2)]
+        sp += [{"mode": "long", "sizes": [16500, 70001, 300000]}]
     else:
         sp = [{"mode": "exhaustive", "maxlen": 4, "part": i, "of": 8} for i in range(8)]
         sp += [{"mode": "random", "n": 20000, "edge": i < 3} for i in range(12)]
         sp += [{"mode": "pipelined", "n": 8000} for _ in range(4)]
+        sp += [{"mode": "long", "sizes": [16383, 16384, 16385, 16500, 70001, 300000, 1000001]}]
     return sp
